@@ -21,7 +21,8 @@ RULE = (
     "Generated: instance x optional filter x event list (<=60) over {valid "
     "dispatch, rejected dispatch, reset, create a recording observer "
     "(subscribed or subscribe=False; two non-singleton classes, one a subclass "
-    "of the other), unsubscribe one, re-subscribe one, create a HistoryObserver "
+    "of the other) or a built-in feature observer / composite (several of one "
+    "type), unsubscribe one, re-subscribe one, create a HistoryObserver "
     "/ UnscheduledOperationsObserver (singletons, possibly a second time), "
     "create_or_get_observer(type, condition)}. Oracle: a model of the "
     "subscriber list predicts for every event exactly which observers are "
@@ -82,6 +83,7 @@ def strategy(tier):
         (2, st.tuples(st.just("sub"), st.integers(0, 9)).map(list)),
         (2, st.tuples(st.just("singleton"), st.integers(0, 1), st.booleans()).map(list)),
         (3, st.tuples(st.just("cog"), st.integers(0, 3), st.integers(0, 4)).map(list)),
+        (3, st.tuples(st.just("builtin"), st.integers(0, 4), st.booleans()).map(list)),
     )
     return st.fixed_dictionaries(
         {
@@ -99,6 +101,7 @@ def check_case(case, ctx):
     model = ref(inst)
     del LOG[:]
     created = []  # all recorders ever created (objects)
+    builtins = []  # built-in feature observers / composites created by events
     expected_subs = []  # model of d.subscribers (objects, in order)
     hist = None  # (observer, expected history list)
     intervals = {}
@@ -214,15 +217,41 @@ def check_case(case, ctx):
             intervals[id(o)] = []
             if ev[1]:
                 expected_subs.append(o)
+        elif kind == "builtin":
+            # built-in non-singleton observers, several of the same type
+            from job_shop_lib.dispatching.feature_observers import (
+                CompositeFeatureObserver,
+                DurationObserver,
+                FeatureType,
+                IsReadyObserver,
+                RemainingOperationsObserver,
+            )
+
+            which = ev[1]
+            if which == 0:
+                o = RemainingOperationsObserver(d, subscribe=ev[2])
+            elif which == 1:
+                o = DurationObserver(d, subscribe=ev[2], feature_types=[FeatureType.JOBS])
+            elif which == 2:
+                o = IsReadyObserver(d, subscribe=ev[2])
+            elif which == 3:
+                o = RemainingOperationsObserver(d, subscribe=ev[2], feature_types=[FeatureType.JOBS])
+            else:
+                o = CompositeFeatureObserver(d, subscribe=ev[2], feature_observers=[x for x in builtins if not isinstance(x, CompositeFeatureObserver)][:2])
+            builtins.append(o)
+            if ev[2]:
+                expected_subs.append(o)
         elif kind == "unsub":
-            cands = [x for x in expected_subs if isinstance(x, Recorder)]
+            cands = [x for x in expected_subs if isinstance(x, Recorder)] + [
+                x for x in expected_subs if any(x is b for b in builtins)
+            ]
             if not cands:
                 continue
             o = cands[ev[1] % len(cands)]
             d.unsubscribe(o)
-            expected_subs.remove(o)
+            expected_subs[:] = [x for x in expected_subs if x is not o]
         elif kind == "sub":
-            cands = [x for x in created if not any(x is y for y in expected_subs)]
+            cands = [x for x in created + builtins if not any(x is y for y in expected_subs)]
             if not cands:
                 continue
             o = cands[ev[1] % len(cands)]
